@@ -350,3 +350,4 @@ CLAIMS["C38"]["text"] += " In the buffer-switch branch the padding is recomputed
 CLAIMS["C35"]["text"] += " The innermost-binding clause: go-to-definition returns what the resolver put in the resolution map, so every construct with a body must resolve its body in a scope of its own (SCOPE, shared with C21); a body resolved in the enclosing scope makes a later use jump to a declaration that is out of scope there."
 
 CLAIMS["C33"]["text"] += " A lexer helper that pushes a token and advances the cursor leaves the cursor exactly at the end of the span it pushed, helpers it calls included, so the characters consumed for a token (digit separators too) are the characters its span covers (SPAN-ADVANCE; decided for the straight-line helpers, today emit and emit_with_skipped)."
+CLAIMS["C33"]["note"] = "That a range covers exactly the construct the message talks about is decided only for the token spans pushed by the lexer's straight-line helpers (SPAN-ADVANCE); spans of the string and comment scanners and positions derived after parsing (Location arithmetic in parse.rs) are assumed to stay within the unit and extent they were given."
